@@ -32,10 +32,13 @@ def _run(ctx):
         for cfg in ("MC_Cleanup_env2", "MC_Cleanup_thorough", "MC_Cleanup_rrdp_thorough", "MC_Cleanup_3p_thorough"):
             lib.tlc(ctx, cfg.lower(), "MC_Cleanup.tla", cfg + ".cfg", workers=4, timeout=3000)
     # 2. the invariants have teeth (seeded faults are rejected) and the model is not vacuous (cleanup does remove)
+    #    (quick: three faults and two probes, thorough: all)
     for m, inv in MUTANTS.items():
-        _must_reject(ctx, "mc_cleanup_mut_" + m, "MC_Cleanup_mut_%s.cfg" % m, inv)
+        if th or m in ("expiry", "retain", "failed"):
+            _must_reject(ctx, "mc_cleanup_mut_" + m, "MC_Cleanup_mut_%s.cfg" % m, inv)
     for m, inv in PROBES.items():
-        _must_reject(ctx, "mc_cleanup_probe_" + m, "MC_Cleanup_probe_%s.cfg" % m, inv)
+        if th or m in ("point", "copy"):
+            _must_reject(ctx, "mc_cleanup_probe_" + m, "MC_Cleanup_probe_%s.cfg" % m, inv)
     # 3. histories
     gen = lib.tlc(ctx, "gen_cleanup", "Gen_Cleanup.tla", "Gen_Cleanup_thorough.cfg" if th else "Gen_Cleanup.cfg",
                   workers=4, timeout=3000, count=False)
@@ -53,7 +56,7 @@ def _run(ctx):
             if i % k == off:
                 lines.append(line)
     sim = lib.tlc(ctx, "gen_cleanup_sim", "Gen_Cleanup.tla", "Gen_Cleanup_sim.cfg", workers=1, timeout=1800, count=False,
-                  extra=["-simulate", "num=%d" % (2500 if th else 300), "-depth", "60", "-seed", str(4000 + ctx.seed)],
+                  extra=["-simulate", "num=%d" % (2500 if th else 250), "-depth", "60", "-seed", str(4000 + ctx.seed)],
                   cacheable=False)
     simf = ctx.path("cleanup_sim.ndjson")
     n3 = lib.extract_replays(sim["out"], simf)
